@@ -360,6 +360,8 @@ func propC01(c *Ctx) {
 	ruleConstCacheFloat(c, rccf)
 	rse := c.Rule("shared-expr-no-rewrite", "an expression that is compiled once per member of a const group (implicit repetition) is not rewritten in place by the compile-time folder: every call of the folder is guarded by the compiler's shared-expression flag and the function that carries the expression over raises it", 2)
 	ruleSharedExprNoRewrite(c, rse)
+	rle := c.Rule("lookup-every-scope", "the name lookup behind the optimizer's constant substitution visits every enclosing symbol table (it steps to the direct parent): a definition that hides an outer literal constant is always seen", 1)
+	ruleLookupEveryScope(c, rle)
 	rrr := c.Rule("rewrite-by-result", "the optimizer rewrites the tree only by putting the result of a folding / evaluating call in the place of the folded expression: no sub-expression is moved from one node to another", 10)
 	ruleRewriteByResult(c, rrr)
 	rdk := c.Rule("decl-kind-agree", "the optimizer's scope tracking handles every declaration kind (param, global, var, const) the compiler declares names for: every kind compared with GenDecl.Tok in the compiler is compared in the optimizer", 1)
